@@ -192,8 +192,35 @@ def run_harness(area, seed, tier, out, stats, replay=None, race=False, extra=Non
     env.setdefault("GOMEMLIMIT", "12GiB")
     if extra:
         env.update(extra)
-    rc, log, dt = sh(cmd, cwd=BUILD, env=env, timeout=timeout)
+    rc, log, dt = sh_group(cmd, cwd=BUILD, env=env, timeout=timeout)
     return rc, log, dt
+
+
+def sh_group(cmd, cwd=None, env=None, timeout=None):
+    """Runs cmd in its own session with its output in a file (not a pipe: peers the harness started
+    and did not reap must not keep this call waiting), and kills the whole process group afterwards
+    (also on time-out: rc = -9 and the log says so)."""
+    import signal, tempfile
+    t0 = time.time()
+    os.makedirs(BUILD, exist_ok=True)
+    with tempfile.TemporaryFile(dir=BUILD) as f:
+        p = subprocess.Popen(cmd, cwd=cwd, env=env, stdin=subprocess.DEVNULL, stdout=f, stderr=subprocess.STDOUT, start_new_session=True)
+        timed_out = False
+        try:
+            rc = p.wait(timeout=timeout)
+        except subprocess.TimeoutExpired:
+            timed_out, rc = True, -9
+        try:
+            os.killpg(p.pid, signal.SIGKILL)
+        except (ProcessLookupError, PermissionError):
+            pass
+        if timed_out:
+            p.wait()
+        f.seek(0)
+        log = f.read().decode(errors="replace")
+    if timed_out:
+        log += f"\n[check.py] harness did not finish within {timeout} s and was killed"
+    return rc, log, time.time() - t0
 
 
 def run_driver(area, inp, outp, timeout=7200):
@@ -539,7 +566,7 @@ def run_check(pid, cfg, tier, seed, replay):
         for fpath in (f_in, f_out, f_st):
             if os.path.exists(fpath):
                 os.remove(fpath)
-        rc, log, dt = run_harness(area, s, tier, f_in, f_st, replay=replay, race=race, timeout=cfg.get("timeout", 7200))
+        rc, log, dt = run_harness(area, s, tier, f_in, f_st, replay=replay, race=race, timeout=cfg.get("harness_timeout_s", 1500 if tier == "quick" else 7200))
         if rc != 0:
             harness_fail = f"harness exit {rc}: {log[-3000:]}"
         rcd, errd = run_driver(area, f_in, f_out)
